@@ -21,7 +21,8 @@
 (* A case is a JSON-native record                                                      *)
 (*   [kind: "assign"|"delete", heap0, flags, root, steps, val: [k,v,steps],             *)
 (*    missing: "none"|"dict"|"list"|"obj", facfail: Nat, ignore: BOOLEAN]               *)
-(* A step with op "x" is the wildcard '*' (T.__star__()): the write is broadcast over    *)
+(* A step with op "x" is the wildcard '*' (T.__star__()), op "X" is '**' (the value itself  *)
+(* and all its descendants, breadth first, each container expanded once): the write is broadcast over *)
 (* every match in order; atomicity is only claimed for wildcard-free paths.              *)
 (* flags[a] \in {"", "wfault", "dfault", "prop"}: the cell's __setitem__/__setattr__    *)
 (* raises, its __delitem__/__delattr__ raises, its class has a read-only property "r".  *)
@@ -32,6 +33,7 @@ EXTENDS GlomAccess
 
 CONSTANT Mutant       \* "none" | "attach_first" | "factory_per_segment" | "replace_existing"
                       \*        | "ignore_skips_delete"
+                      \*        | "catch_typeerror"   a TypeError of del dest[key] read as "missing"
                       \* historic behaviours of glom, repaired since (a regression is a VIOLATION):
                       \*        | "catch_index_only"  Delete._del_one read only IndexError of T[key] as missing
                       \*        | "tail_copies_value" the nested Assign of missing= re-evaluated the value (copy)
@@ -218,20 +220,32 @@ TailFill(c, h, b, j, v) ==        \* fill cell NB+j .. NB+d innermost first; ret
                     IF j = d THEN v ELSE VRef(NB + j + 1))
 
 \* ---- wildcards: the parents a path with '*' steps reaches, in order -------------------
-HasStar(steps) == \E i \in 1..Len(steps) : steps[i].op = "x"
+IsWild(st) == st.op \in {"x", "X"}
+HasStar(steps) == \E i \in 1..Len(steps) : IsWild(steps[i])
+FirstWildFrom(steps, i) == CHOOSE k \in i..Len(steps) : IsWild(steps[k]) /\ \A m \in i..(k - 1) : ~IsWild(steps[m])
+\* '**': the children of cur, then the children of each of them ... in breadth-first order; every
+\* occurrence is an entry, but a container (identity = address) is expanded only the first time
+RECURSIVE Bfs(_, _, _, _)
+Bfs(h, nxt, i, sofar) ==
+  IF i > Len(nxt) THEN nxt
+  ELSE LET it == nxt[i] IN
+       IF IsRef(it) /\ it.a \notin sofar THEN Bfs(h, nxt \o Children(h, it), i + 1, sofar \cup {it.a})
+       ELSE Bfs(h, nxt, i + 1, sofar)
+Descendants(h, cur) == <<cur>> \o Bfs(h, Children(h, cur), 1, IF IsRef(cur) THEN {cur.a} ELSE {})
+Matches(h, cur, st) == IF st.op = "x" THEN Children(h, cur) ELSE Descendants(h, cur)
 RECURSIVE FlattenSeq(_)
 FlattenSeq(ss) == IF ss = <<>> THEN <<>> ELSE Head(ss) \o FlattenSeq(Tail(ss))
 \* '*' enumerates the children in natural order; every later step is applied per child and a
 \* child on which it fails is dropped; a failure outside any wildcard fails the whole access
 RECURSIVE Fan(_, _, _, _)
 Fan(h, cur, steps, i) ==
-  IF i > Len(steps) THEN [ok |-> TRUE, dests |-> <<cur>>]
-  ELSE IF steps[i].op = "x" THEN
-    LET ch == Children(h, cur)
+  IF i > Len(steps) THEN [ok |-> TRUE, dests |-> <<cur>>, idx |-> 0]
+  ELSE IF IsWild(steps[i]) THEN
+    LET ch == Matches(h, cur, steps[i])
         sub == [j \in 1..Len(ch) |-> Fan(h, ch[j], steps, i + 1)]
-    IN [ok |-> TRUE, dests |-> FlattenSeq([j \in 1..Len(ch) |-> IF sub[j].ok THEN sub[j].dests ELSE <<>>])]
+    IN [ok |-> TRUE, dests |-> FlattenSeq([j \in 1..Len(ch) |-> IF sub[j].ok THEN sub[j].dests ELSE <<>>]), idx |-> 0]
   ELSE LET r == StepApply(h, cur, steps[i]) IN
-       IF r.ok THEN Fan(h, r.v, steps, i + 1) ELSE [ok |-> FALSE, dests |-> <<>>]
+       IF r.ok THEN Fan(h, r.v, steps, i + 1) ELSE [ok |-> FALSE, dests |-> <<>>, idx |-> i]
 
 \* assignment at every match in order; an error at one match ends the broadcast there
 RECURSIVE FoldStore(_, _, _, _, _)
@@ -240,11 +254,35 @@ FoldStore(c, h, dests, j, v) ==
   ELSE LET r == StoreOp(h, c.flags, dests[j], FinalStep(c), v) IN
        IF r.ok THEN FoldStore(c, r.heap, dests, j + 1, v) ELSE [ok |-> FALSE, heap |-> h]
 
+\* new container j receives new container j+1 under segment b+j (the last one stays empty)
+RECURSIVE LinkTail(_, _, _, _, _, _)
+LinkTail(c, h, b, j, d, NB) ==
+  IF j >= d THEN POk(h, <<>>)
+  ELSE LET inner == LinkTail(c, h, b, j + 1, d, NB) IN
+       IF ~inner.ok THEN inner
+       ELSE StoreOp(inner.heap, c.flags, VRef(NB + j), c.steps[b + j], VRef(NB + j + 1))
+
 RefStarAssign(c) ==
   LET v == ValBuild(c.heap0, c.root, c.val)
       fan == Fan(c.heap0, c.root, ParentSteps(c), 1)
   IN IF ~v.ok THEN Expect(FALSE, "any", FALSE, c.heap0, VNone)
-     ELSE IF ~fan.ok THEN Expect(FALSE, "PathAccessError", FALSE, c.heap0, VNone)
+     ELSE IF ~fan.ok /\ c.missing = "none" THEN Expect(FALSE, "PathAccessError", FALSE, c.heap0, VNone)
+     ELSE IF ~fan.ok THEN
+       \* a segment before the first wildcard is absent: the absent segments b .. s-1 up to that
+       \* wildcard are created (one factory call each) and attached last; the wildcard ranges over the
+       \* last new, empty container ('*': no match; '**': that container itself)
+       LET b == fan.idx
+           d == FirstWildFrom(c.steps, b) - b
+           NB == Len(v.heap)
+           dest == PathEval(c.heap0, c.root, SubSeq(c.steps, 1, b - 1)).v
+           fresh == v.heap \o [j \in 1..d |-> Cell(c.missing, <<>>)]
+           links == LinkTail(c, fresh, b, 1, d, NB)
+           fan2 == Fan(fresh, VRef(NB + d), ParentSteps(c), b + d)
+           filled == FoldStore(c, links.heap, fan2.dests, 1, v.v)
+           failed == Expect(FALSE, "any", FALSE, c.heap0, VNone)
+       IN IF c.facfail \in 1..d \/ ~links.ok \/ ~filled.ok THEN failed
+          ELSE LET r == StoreOp(filled.heap, c.flags, dest, c.steps[b], VRef(NB + 1)) IN
+               IF r.ok THEN Expect(TRUE, "", FALSE, r.heap, c.root) ELSE failed
      ELSE LET r == FoldStore(c, v.heap, fan.dests, 1, v.v) IN
           IF r.ok THEN Expect(TRUE, "", FALSE, r.heap, c.root) ELSE Expect(FALSE, "any", FALSE, r.heap, VNone)
 
@@ -268,12 +306,15 @@ RefPlainAssign(c) ==
              ELSE LET r == StoreOp(tail.heap, c.flags, dest, c.steps[b], VRef(Len(v.heap) + 1)) IN
                   IF r.ok THEN Expect(TRUE, "", FALSE, r.heap, c.root) ELSE failed
 
-\* missing= together with wildcards is not specified by the statement: kept out of the universes
 RefAssign(c) == IF HasStar(c.steps) THEN RefStarAssign(c) ELSE RefPlainAssign(c)
 
 AbsentSegments(c) ==
   LET par == PathEval(c.heap0, c.root, ParentSteps(c)) IN
-  IF HasStar(c.steps) \/ par.ok \/ par.idx < 0 \/ c.missing = "none" THEN 0 ELSE NSteps(c) - (par.idx + 1)
+  IF c.missing = "none" THEN 0
+  ELSE IF HasStar(c.steps) THEN
+    LET fan == Fan(c.heap0, c.root, ParentSteps(c), 1) IN
+    IF fan.ok THEN 0 ELSE FirstWildFrom(c.steps, fan.idx) - fan.idx
+  ELSE IF par.ok \/ par.idx < 0 THEN 0 ELSE NSteps(c) - (par.idx + 1)
 
 \* how the final step of a delete relates to its destination (from the statement: a
 \* present / missing key, index or attribute; anything else is not a "missing" case)
@@ -295,6 +336,17 @@ DelClass(h, fl, dest, st) ==
                             ELSE IF HasKey(h[dest.a].items, st.arg) THEN "present" ELSE "missing"
 
 \* del at every match in order (Python semantics: an earlier deletion is visible to a later match)
+\* A T[..] / T.attr deletion has exactly the effect of Python's del / delattr: when that raises
+\* anything but the "missing" errors (item deletion on a tuple, a str, None; a wrong index type; a
+\* __delitem__ / __delattr__ that raises) the error propagates as itself, ignore_missing or not.
+\* (For a path segment the documentation reports handler failures as PathDeleteError and does not
+\* say whether ignore_missing covers them; a read-only property answers delattr with the same
+\* AttributeError as a missing attribute: those stay unjudged beyond "target unchanged".)
+Propagates(h, fl, dest, st) ==
+  /\ st.op \in {"[", "."}
+  /\ DelClass(h, fl, dest, st) \in {"inapplicable", "fault"}
+  /\ DelOp(h, fl, dest, st).exc # "AttributeError"
+
 RECURSIVE FoldDel(_, _, _, _)
 FoldDel(c, h, dests, j) ==
   IF j > Len(dests) THEN Expect(TRUE, "", FALSE, h, c.root)
@@ -302,7 +354,9 @@ FoldDel(c, h, dests, j) ==
     CASE k = "present" -> FoldDel(c, DelOp(h, c.flags, dests[j], FinalStep(c)).heap, dests, j + 1)
       [] k = "missing" -> IF c.ignore THEN FoldDel(c, h, dests, j + 1)
                           ELSE Expect(FALSE, "PathDeleteError", FALSE, h, VNone)
-      [] OTHER         -> Expect(TRUE, "unspecified", TRUE, h, c.root)   \* not judged
+      [] OTHER         -> IF Propagates(h, c.flags, dests[j], FinalStep(c))
+                          THEN Expect(FALSE, DelOp(h, c.flags, dests[j], FinalStep(c)).exc, FALSE, h, VNone)
+                          ELSE Expect(TRUE, "unspecified", TRUE, h, c.root)   \* not judged
 
 RefStarDelete(c) ==
   LET fan == Fan(c.heap0, c.root, ParentSteps(c), 1) IN
@@ -319,7 +373,9 @@ RefPlainDelete(c) ==
      ELSE LET k == DelClass(c.heap0, c.flags, par.v, FinalStep(c)) IN
        CASE k = "present" -> Expect(TRUE, "", FALSE, DelOp(c.heap0, c.flags, par.v, FinalStep(c)).heap, c.root)
          [] k = "missing" -> IF c.ignore THEN same ELSE Expect(FALSE, "PathDeleteError", FALSE, c.heap0, VNone)
-         [] OTHER         -> IF c.ignore THEN Expect(TRUE, "", TRUE, c.heap0, c.root)
+         [] OTHER         -> IF Propagates(c.heap0, c.flags, par.v, FinalStep(c))
+                             THEN Expect(FALSE, DelOp(c.heap0, c.flags, par.v, FinalStep(c)).exc, FALSE, c.heap0, VNone)
+                             ELSE IF c.ignore THEN Expect(TRUE, "", TRUE, c.heap0, c.root)
                              ELSE Expect(FALSE, "any", FALSE, c.heap0, VNone)
 
 RefDelete(c) == IF HasStar(c.steps) THEN RefStarDelete(c) ELSE RefPlainDelete(c)
@@ -329,9 +385,13 @@ Ref(c) == IF c.kind = "assign" THEN RefAssign(c) ELSE RefDelete(c)
 \* cells made during the call that nothing pre-existing refers to are garbage (a rebuilt literal
 \* value that a wildcard path with no match never stored): they are not part of the effect
 CellVals(cell) == IF cell.cls \in MapClasses THEN [i \in 1..Len(cell.items) |-> cell.items[i][2]] ELSE cell.items
-AttachesNew(c, h) == \E a \in 1..N0(c) : \E i \in 1..Len(CellVals(h[a])) :
-                        LET x == CellVals(h[a])[i] IN IsRef(x) /\ x.a > N0(c)
-Live(c, h) == IF AttachesNew(c, h) THEN h ELSE Pre(c, h)
+RefsIn(cell) == {CellVals(cell)[i].a : i \in {k \in 1..Len(CellVals(cell)) : IsRef(CellVals(cell)[k])}}
+RECURSIVE Reach(_, _, _)
+Reach(h, frontier, seen) ==
+  IF frontier = {} THEN seen
+  ELSE LET nxt == (UNION {RefsIn(h[a]) : a \in frontier}) \ seen IN Reach(h, nxt, seen \cup nxt)
+Live(c, h) == LET r == Reach(h, 1..N0(c), 1..N0(c)) IN
+              [a \in 1..Len(h) |-> IF a \in r THEN h[a] ELSE Cell("garbage", <<>>)]
 
 \* does an outcome (machine's or the library's) conform to the law's expectation?
 \* cls = class of the escaping error, v = returned value, h = heap afterwards
@@ -394,6 +454,18 @@ StartAgain(c, m) == [Start(c) EXCEPT !.memo = m]
 Finish(s, ok, mech) ==
   [s EXCEPT !.pc = "done", !.out = [ok |-> ok, mech |-> mech, v |-> IF ok THEN s.case.root ELSE VNone]]
 
+\* the nested glom returns its target (the new container), which becomes the value the enclosing
+\* Assign stores at its break point:  op, arg = orig.items()[idx];  dest = glom(dest_target, orig[:idx])
+PopFrame(s1) ==
+  LET c == s1.case
+      done == s1.stk[Len(s1.stk)]
+      rest == SubSeq(s1.stk, 1, Len(s1.stk) - 1)
+      top == rest[Len(rest)]
+      pe == PathEval(s1.heap, top.tgt, SubSeq(c.steps, top.lo, top.brk - 1))
+  IN IF ~pe.ok THEN Finish(s1, FALSE, "PathAccessError")
+     ELSE [s1 EXCEPT !.stk = rest, !.val = done.tgt, !.cur = pe.v, !.idx = top.brk, !.queue = <<>>,
+                     !.pc = IF Len(rest) > 1 THEN "tail" ELSE "store"]
+
 \* Assign.glomit: val = arg_val(target, self.val, scope)
 DoEvalVal(s) ==
   LET v == ValBuildM(s.heap, s.case.root, s.case.val, Mutant = "alias_lost") IN
@@ -403,14 +475,15 @@ DoEvalVal(s) ==
 DoFetch(s) ==
   LET c == s.case
       st == c.steps[s.idx]
-      r == IF st.op = "x" THEN Ok(s.cur) ELSE StepApply(s.heap, s.cur, st)
+      r == IF IsWild(st) THEN Ok(s.cur) ELSE StepApply(s.heap, s.cur, st)
       s1 == IF Mutant = "factory_per_segment" /\ c.kind = "assign" /\ c.missing # "none" /\ Len(s.stk) = 1
             THEN [s EXCEPT !.nfac = @ + 1, !.log = Append(@, FEv(s.nfac + 1))] ELSE s
-  IN IF st.op = "x" THEN
-       \* _t_eval 'x': the rest of the parent path is evaluated per child in recursive calls;
-       \* _apply_for_each then performs the write on every result in order
+  IN IF IsWild(st) THEN
+       \* _t_eval 'x' / 'X': the rest of the parent path is evaluated per match in recursive calls;
+       \* _apply_for_each then performs the write on every result in order.  Without a match the
+       \* evaluation (of this frame: possibly the nested Assign on a new container) is over.
        LET fan == Fan(s.heap, s.cur, ParentSteps(c), s.idx) IN
-       IF fan.dests = <<>> THEN Finish(s, TRUE, "")
+       IF fan.dests = <<>> THEN (IF Len(s.stk) = 1 THEN Finish(s, TRUE, "") ELSE PopFrame(s))
        ELSE [s EXCEPT !.cur = Head(fan.dests), !.queue = Tail(fan.dests), !.idx = NSteps(c), !.pc = WritePc(s)]
      ELSE IF r.ok THEN AfterFetch([s1 EXCEPT !.cur = r.v, !.idx = @ + 1])
      ELSE IF ~Wrapped(st.op, r.exc) THEN Finish(s, FALSE, r.exc)
@@ -461,20 +534,13 @@ DoWrite(s) ==
   IN IF ~r.ok THEN Finish(s1, FALSE, r.exc)
      ELSE IF s.queue # <<>> THEN [s1 EXCEPT !.cur = Head(s.queue), !.queue = Tail(s.queue)]   \* next match
      ELSE IF Len(s.stk) = 1 THEN Finish(s1, TRUE, "")
-     ELSE \* the nested glom returns its target (the new container), which becomes the value the
-          \* enclosing Assign stores at its break point:  op, arg = orig.items()[idx];
-          \* dest = glom(dest_target, orig[:idx])
-          LET done == s.stk[Len(s.stk)]
-              rest == SubSeq(s.stk, 1, Len(s.stk) - 1)
-              top == rest[Len(rest)]
-              pe == PathEval(r.heap, top.tgt, SubSeq(c.steps, top.lo, top.brk - 1))
-          IN IF ~pe.ok THEN Finish(s1, FALSE, "PathAccessError")
-             ELSE [s1 EXCEPT !.stk = rest, !.val = done.tgt, !.cur = pe.v, !.idx = top.brk,
-                             !.pc = IF Len(rest) > 1 THEN "tail" ELSE "store"]
+     ELSE PopFrame(s1)
 
 \* Delete._del_one: which exceptions of the deletion are read as "the element is missing"
 Translated(st, hd, exc) ==
-  CASE st.op = "[" -> exc \in (IF Mutant = "catch_index_only" THEN {"IndexError"} ELSE {"KeyError", "IndexError"})
+  CASE st.op = "[" -> exc \in (CASE Mutant = "catch_index_only" -> {"IndexError"}
+                                 [] Mutant = "catch_typeerror" -> {"KeyError", "IndexError", "TypeError"}
+                                 [] OTHER -> {"KeyError", "IndexError"})
     [] st.op = "." -> exc = "AttributeError"
     [] st.op = "P" -> hd # "none"
 
